@@ -80,6 +80,9 @@ def base_recipe(rng, left: bool):
         "rows": rows, "cols": cols, "bands": bands, "im": rng.choice(["ok", "ok", "some_nan"]),
         "vars": [], "attrs": list(MANDATORY) + (["disparity_source"] if rng.random() < 0.5 else []),
         "disparity": None,
+        # how the (string) band names are stored: a plain list gives a '<U' coordinate, a pandas Index / an object array /
+        # a dataset reloaded from netCDF give an object coordinate holding str objects (seed C17-5)
+        "band_repr": rng.choice(["list", "list", "object", "index"]),
     }
     if rng.random() < 0.5:
         rec["vars"].append({"name": "msk", "shape": "same"})
@@ -169,7 +172,14 @@ def build_dataset(rec):
             im[..., 0, 0] = np.nan
         data_vars["im"] = (["row", "col"] if bands is None else ["band_im", "row", "col"], im)
     if bands is not None:
-        coords["band_im"] = np.array(bands, dtype=object) if not all(isinstance(b, str) for b in bands) else bands
+        if not all(isinstance(b, str) for b in bands) or rec.get("band_repr") == "object":
+            coords["band_im"] = np.array(bands, dtype=object)
+        elif rec.get("band_repr") == "index":
+            import pandas as pd
+
+            coords["band_im"] = pd.Index(bands)
+        else:
+            coords["band_im"] = bands
     for var in rec["vars"]:
         sh = var["shape"]
         if sh == "same":
